@@ -1357,7 +1357,7 @@ func emitCallee(in ssa.Instruction, pkg string, fn *ssa.Function) *ssa.Function 
 		return nil
 	}
 	for _, p := range f.Params {
-		if isIOWriter(p.Type()) {
+		if isIOWriter(p.Type()) || carriesWriter(p.Type()) {
 			return f
 		}
 	}
@@ -1372,7 +1372,7 @@ func emitCallee(in ssa.Instruction, pkg string, fn *ssa.Function) *ssa.Function 
 			return
 		}
 		for _, p := range g.Params {
-			if isIOWriter(p.Type()) {
+			if isIOWriter(p.Type()) || carriesWriter(p.Type()) {
 				inner = g
 				n++
 				return
